@@ -30,6 +30,7 @@ import (
 	"github.com/openebs/jiva/backend/remote"
 	"github.com/openebs/jiva/controller"
 	"github.com/openebs/jiva/replica"
+	ctlrest "github.com/openebs/jiva/controller/rest"
 	replicarest "github.com/openebs/jiva/replica/rest"
 	"github.com/openebs/jiva/rpc"
 	"github.com/openebs/jiva/types"
@@ -1411,7 +1412,68 @@ func (r *run) generate(n int, profile string) {
 	do(Op{Ev: "Read"})
 }
 
+// serve mode (harness layer L5): bring the system into a state by a scenario prefix, then
+// serve the REAL management router of the controller (or of one replica) together with
+// two debug endpoints the fuzzer uses: /verif/trylock and /verif/state.  Runs until killed.
+func serve(r *run, what, listen string) {
+	mux := http.NewServeMux()
+	var inner http.Handler
+	var tryLock func() bool
+	var state func() interface{}
+	if what == "controller" {
+		inner = ctlrest.NewRouter(ctlrest.NewServer(r.c))
+		tryLock = func() bool {
+			if r.c.TryLock() {
+				r.c.Unlock()
+				return true
+			}
+			return false
+		}
+		state = func() interface{} { return r.ctlState() }
+	} else {
+		n := r.node(what)
+		inner = replicarest.NewRouter(replicarest.NewServer(n.s))
+		tryLock = func() bool {
+			if n.s.TryLock() {
+				n.s.Unlock()
+				return true
+			}
+			return false
+		}
+		state = func() interface{} {
+			st, _ := n.s.Status()
+			mode := "CLOSED"
+			if rep := n.s.Replica(); rep != nil {
+				mode = rep.GetReplicaMode()
+			}
+			return map[string]interface{}{"state": string(st), "mode": mode}
+		}
+	}
+	mux.HandleFunc("/verif/trylock", func(w http.ResponseWriter, req *http.Request) {
+		for i := 0; i < 50; i++ { // a handler that is still finishing may hold it briefly
+			if tryLock() {
+				w.Write([]byte("free"))
+				return
+			}
+			time.Sleep(20 * time.Millisecond)
+		}
+		http.Error(w, "locked", http.StatusLocked)
+	})
+	mux.HandleFunc("/verif/state", func(w http.ResponseWriter, req *http.Request) {
+		b, _ := json.Marshal(state())
+		w.Write(b)
+	})
+	mux.Handle("/", inner)
+	fmt.Println("SERVING", listen)
+	r.w.Flush()
+	err := http.ListenAndServe(listen, mux)
+	fmt.Fprintln(os.Stderr, "serve ended:", err)
+	os.Exit(2)
+}
+
 func main() {
+	serveWhat := flag.String("serve", "", "serve the REST router of: controller | a1 | a2 ... after the -in scenario")
+	listen := flag.String("listen", "127.0.0.1:9501", "listen address of -serve")
 	in := flag.String("in", "", "scenario file (ndjson)")
 	gen := flag.Int("gen", 0, "number of scenarios to generate")
 	genLen := flag.Int("len", 14, "operations per generated scenario")
@@ -1457,6 +1519,21 @@ func main() {
 			for _, op := range sc.Ops {
 				r.exec(op)
 			}
+		}
+		if *serveWhat != "" {
+			// monitors are not held back while serving
+			r.g.mu.Lock()
+			r.g.released = true
+			for _, c := range r.g.release {
+				for i := 0; i < 32; i++ {
+					select {
+					case c <- struct{}{}:
+					default:
+					}
+				}
+			}
+			r.g.mu.Unlock()
+			serve(r, *serveWhat, *listen)
 		}
 		r.teardown()
 		w.Flush()
